@@ -25,14 +25,14 @@ COMMON_ASSUMPTIONS = [
 PROPS = {
     'C01': dict(
         title='bounded queue: exactly once, FIFO, exclusive published access',
-        quick=[mc('mc_queue', 'all', 'sc', P=2, E=0, budget=100), mc('mc_queue', 'all', 'tso', P=1, D=1, E=1, budget=100)],
-        thorough=[mc('mc_queue', 'all', 'sc', P=3, E=1, budget=900), mc('mc_queue', 'all', 'tso', P=2, D=2, E=1, budget=900)],
-        oracle='multiset conservation, FIFO for ordered operations, try_ results, HB race detector on slot payload, torn-element check',
+        quick=[mc('mc_queue', 'all', 'sc', P=2, E=0, budget=150), mc('mc_queue', 'all', 'tso', P=1, D=1, E=1, budget=150), sq('sq_queue', ['--depth', '7'], budget=100)],
+        thorough=[mc('mc_queue', 'all', 'sc', P=3, E=1, budget=900), mc('mc_queue', 'all', 'tso', P=2, D=2, E=1, budget=900), sq('sq_queue', ['--depth', '10'], budget=600)],
+        oracle='multiset conservation, FIFO for ordered operations, try_ results, HB race detector on slot payload, torn-element check; sequential half (sq_queue): every sequence of the 12 non-blocking / non-blocked operations vs std::deque for capacities 1/2/4, with macro operations that really pass 32766/32767 laps through the queue (16-bit version wrap inside the histories); the fast_forward() short cut used by the concurrent programs that start just before the wrap is compared field by field with the really reached state',
     ),
     'C02': dict(
         title='bounded queue: no lost wake-up, timed pop',
-        quick=[mc('mc_queue', '18-19,27-34', 'tso', P=2, D=1, E=1, budget=150)],
-        thorough=[mc('mc_queue', '18-19,27-34', 'tso', P=3, D=2, E=1, budget=1200), mc('mc_queue', '0-9,16-17', 'tso', P=2, D=2, E=1, budget=600)],
+        quick=[mc('mc_queue', '18-19,27-34,38-42,46-47', 'tso', P=2, D=1, E=1, budget=150)],
+        thorough=[mc('mc_queue', '18-19,27-34,38-42,46-47', 'tso', P=3, D=2, E=1, budget=1200), mc('mc_queue', '0-9,16-17', 'tso', P=2, D=2, E=1, budget=600)],
         oracle='deadlock / livelock detector of the owning scheduler (every blocking call returns), timed pop bounded by its deadline on the virtual clock',
     ),
     'C18': dict(
@@ -76,15 +76,15 @@ PROPS = {
     ),
     'C09': dict(
         title='epoch: nothing becomes reclaimable while a reader that may see it is in a region',
-        quick=[mc('mc_epoch', '0,2,3,5', 'tso', P=2, D=2, E=0, budget=100), mc('mc_epoch', '1,4,6', 'tso', P=2, D=1, E=0, budget=150), mc('mc_epoch', 'all', 'sc', P=2, budget=100)],
-        thorough=[mc('mc_epoch', 'all', 'tso', P=2, D=2, E=0, budget=1500), mc('mc_epoch', 'all', 'sc', P=3, budget=600), mc('mc_epoch', '0,2,3,5', 'tso', P=3, D=2, E=0, budget=600)],
+        quick=[mc('mc_epoch', '0,2,3,5,7,8', 'tso', P=2, D=2, E=0, budget=100), mc('mc_epoch', '1,4,6', 'tso', P=2, D=1, E=0, budget=150), mc('mc_epoch', 'all', 'sc', P=2, budget=100)],
+        thorough=[mc('mc_epoch', 'all', 'tso', P=2, D=2, E=0, budget=1500), mc('mc_epoch', 'all', 'sc', P=3, budget=600), mc('mc_epoch', '0,2,3,5,7,8', 'tso', P=3, D=2, E=0, budget=600)],
         oracle='writer protocol of GarbageCollector (unlink, tick, reclaim iff low_water_mark() >= tick); reclaim poisons + deletes: a reader inside its region touching a reclaimed object trips the freed-memory oracle and an explicit flag; after all regions closed low_water_mark() == UINT64_MAX',
         assumptions=['tick() weakened to relaxed would still be a locked instruction on x86 and is not observable under TSO (DESIGN section 7)'],
     ),
     'C10': dict(
         title='garbage collector: reclaimers run exactly once, never early, before stop returns',
-        quick=[mc('mc_gc', '0,1,3,4,5', 'sc', P=2, E=0, budget=150), mc('mc_gc', '2', 'sc', P=1, E=0, budget=60)],
-        thorough=[mc('mc_gc', 'all', 'sc', P=2, E=1, budget=1500), mc('mc_gc', '0,1,3,4', 'sc', P=3, E=0, budget=900), mc('mc_gc', '0,1', 'tso', P=2, D=1, budget=600)],
+        quick=[mc('mc_gc', '0,1,3,4,5,6,7', 'sc', P=2, E=0, budget=150), mc('mc_gc', '2', 'sc', P=1, E=0, budget=60)],
+        thorough=[mc('mc_gc', 'all', 'sc', P=2, E=1, budget=1500), mc('mc_gc', '0,1,3,4,6,7', 'sc', P=3, E=0, budget=900), mc('mc_gc', '0,1', 'tso', P=2, D=1, budget=600)],
         oracle='per reclaimer: invoked exactly once when stop()/the destructor returned, never while a region that was open at its retirement is still open, never destroyed uninvoked; retire blocks on a full queue and resumes (deadlock detector)',
     ),
     'C15': dict(
@@ -95,7 +95,7 @@ PROPS = {
     ),
     'C03': dict(
         title='concurrent hash set/map: linearizable insert-if-absent, one winner per key',
-        quick=[mc('mc_hash', 'all', 'sc', P=2, E=1, budget=200), mc('mc_hash', '0,1,3,4', 'tso', P=1, D=1, E=0, budget=100)],
+        quick=[mc('mc_hash', 'all', 'sc', P=2, E=1, budget=200), mc('mc_hash', '0,1,3,4,8,9', 'tso', P=1, D=1, E=0, budget=100)],
         thorough=[mc('mc_hash', 'all', 'sc', P=3, E=1, budget=1500), mc('mc_hash', 'all', 'tso', P=2, D=1, E=0, budget=900)],
         oracle='per key: exactly one successful insertion, all calls return the same element address, lookups starting after an insertion returned hit (logical stamps), elements fully constructed when visible (value check + HB race detector over the value array), full fixed table rejects without consuming a move-only argument, contents/size/iteration at quiescence',
         assumptions=['harness hash function places keys in chosen groups with chosen 7-bit tags (collisions, equal tags, group wrapping the table end)'],
@@ -121,7 +121,7 @@ PROPS = {
     ),
     'C07': dict(
         title='executors: an accepted task runs exactly once; stop() drains submitted work',
-        quick=[mc('mc_exec', '0,2,3,4,6,7,8', 'sc', P=1, E=1, budget=150), mc('mc_exec', '1,5', 'sc', P=1, E=0, budget=150)],
+        quick=[mc('mc_exec', '0,2,3,4,6,7,8', 'sc', P=1, E=1, budget=150), mc('mc_exec', '1,5,10', 'sc', P=1, E=0, budget=150)],
         thorough=[mc('mc_exec', 'all', 'sc', P=2, E=1, budget=2400), mc('mc_exec', '0,2,4', 'tso', P=1, D=1, E=0, budget=600)],
         oracle='run counter per accepted task exactly 1, is_running_in() true inside tasks and children, futures ready with the result when stop()/join() returns, children spawned into local queues finished before stop() returns, refused submissions (fault choices) never run and yield invalid futures, no deadlock with full queues',
     ),
@@ -140,8 +140,8 @@ PROPS = {
     ),
     'C05': dict(
         title='anyflow: a run equals sequential demand-driven evaluation; each vertex runs at most once',
-        quick=[mc('mc_anyflow', '0-20', 'sc', P=2, budget=200), mc('mc_anyflow', '21', 'sc', P=0, budget=200), mc('mc_anyflow', '1-14', 'tso', P=1, D=1, budget=200)],
-        thorough=[mc('mc_anyflow', '0-20', 'sc', P=3, budget=2400), mc('mc_anyflow', '1-14', 'tso', P=2, D=1, budget=1200), mc('mc_anyflow', '21', 'sc', P=0, budget=300), mc('mc_anyflow', '22', 'sc', P=1, budget=1200)],
+        quick=[mc('mc_anyflow', '0-20,23-24', 'sc', P=2, budget=200), mc('mc_anyflow', '21', 'sc', P=0, budget=200), mc('mc_anyflow', '1-14,23-24', 'tso', P=1, D=1, budget=200)],
+        thorough=[mc('mc_anyflow', '0-20,23-25', 'sc', P=3, budget=2400), mc('mc_anyflow', '1-14,23-24', 'tso', P=2, D=1, budget=1200), mc('mc_anyflow', '21', 'sc', P=0, budget=300), mc('mc_anyflow', '22', 'sc', P=1, budget=1200)],
         oracle='sequential demand-driven reference interpreter written in the harness: closure finished, success/failure and error code, every target value, every data (ready/empty/value), the exact set of processors run (each at most once, only needed ones), the inputs each processor saw, dependency verdict (condition ready; target ready iff condition holds) at invocation, started==finished for every vertex when wait() returns, second run after reset(); HB race detector on data payload and dependency verdicts; deadlock detector',
         assumptions=['curated graphs (diamond, on/unless, punch-through, essential, trivial, nested conditions, missing/empty/injected inputs, failing vertex, target subsets) under an inplace executor, a thread-per-vertex executor and ThreadPoolGraphExecutor with 1-2 workers; plus the generated family: all dependency shapes of a 3-vertex graph over a 4-name pool (141120 structures x 4 input valuations)', 'the Closure object outlives every external emit into the graph (an emit into a graph whose closure was destroyed is outside the harness)', 'GraphDependency::_established is not under the race detector: two threads may store the same value true to it without ordering (benign same-value write; reported in DESIGN.md)'],
     ),
